@@ -78,23 +78,34 @@ class Engine:
         self.ix = index
         self.overrides = overrides or []          # [(regex, fn(engine, callee, args))]
         self.solver = None; self.pc = []
-        self.decisions = []; self.replay = []; self.split_depth = None; self.truncated = None; self.cuts = []; self.all_pcs = []
+        self.decisions = []; self.replay = []; self.split_depth = None; self.truncated = None; self.cuts = []; self.all_pcs = []; self.cut_pcs = []; self.prefix_pc = None; self._prefix_len = 0
         self.stats = dict(paths=0, steps=0, queries=0, calls=0)
         self._pcache = index.__dict__.setdefault('_pcache', {}); self._enum_cache = dict(STD_ENUMS); self._res_cache = {}
         self.enum_src_dirs = enum_src_dirs
         self.call_stack = []; self.trace = bool(__import__('os').environ.get('MIRSYM_TRACE')); self.env_stack = [{}]; self._gen_cache = index.__dict__.setdefault('_gen_cache', {})
         self.models = []                           # [(compiled regex, fn)]
-        self.touched = {}; self.cov = set(); self.const_overrides = {}
-        from . import models, models2, models3
-        models.register(self); models2.register2(self); models3.register3(self)
+        self.touched = {}; self.cov = set(); self.const_overrides = {}; self.max_orders = 720; self.notes = set()
+        from . import models, models2, models3, models4
+        models.register(self); models2.register2(self); models3.register3(self); models4.register4(self)
 
     # ---------------- forking
     def choose(self, n):
         if n <= 1: return 0
         i = len(self.decisions)
+        if self.prefix_pc is None and i >= getattr(self, '_prefix_len', 0): self.prefix_pc = list(self.pc)       # constraints implied by the forced prefix
         if self.split_depth is not None and i >= self.split_depth and i >= len(self.replay): raise Cut()
         d = self.replay[i] if i < len(self.replay) else 0
         self.decisions.append((d, n)); return d
+
+    def pick_order(self, n):
+        """nondeterministic iteration order of an unordered container with n elements: a fork over all n! permutations, or, when
+        n! exceeds self.max_orders, over the identity and the reversed order only (an under-approximation, recorded in self.notes)"""
+        import math
+        if n <= 1: return list(range(n))
+        if math.factorial(n) <= self.max_orders:
+            perms = list(itertools.permutations(range(n))); return list(perms[self.choose(len(perms))])
+        self.notes.add(f'iteration orders of a {n}-element unordered container restricted to identity and reverse')
+        return list(range(n)) if self.choose(2) == 0 else list(range(n - 1, -1, -1))
 
     def branch(self, cond):
         if isinstance(cond, bool): return cond
@@ -127,7 +138,7 @@ class Engine:
         """Depth-first enumeration of all feasible paths by re-execution.
         prefix: fixed initial decisions (this call explores only paths extending it).
         split_depth: if set, do not descend below that many decisions; instead return the list of cut prefixes in self.cuts."""
-        results = []; prefix = list(prefix or []); self.replay = list(prefix); self.truncated = None; self.cuts = []
+        results = []; prefix = list(prefix or []); self.replay = list(prefix); self.truncated = None; self.cuts = []; self.cut_pcs = []; self.prefix_pc = None; self._prefix_len = len(prefix)
         self.split_depth = split_depth
         while True:
             self.decisions = []; self.pc = []; self.solver = z3.Solver(); self.call_stack = []; self.env_stack = [{}]
@@ -135,7 +146,7 @@ class Engine:
                 r = run(self); results.append(('ok', r, list(self.pc)))
             except Panic as p: results.append(('panic', str(p), list(self.pc)))
             except PathEnd: pass
-            except Cut: self.cuts.append([x for x, _ in self.decisions])
+            except Cut: self.cuts.append([x for x, _ in self.decisions]); self.cut_pcs.append(list(self.pc))
             self.stats['paths'] += 1
             d = self.decisions
             while len(d) > len(prefix) and d[-1][0] + 1 >= d[-1][1]: d.pop()
